@@ -56,4 +56,48 @@ instance (s f : Int) : Decidable (InUtcRange s f) := by unfold InUtcRange; exact
 def cmpKey (s1 f1 s2 f2 : Int) : Int :=
   if s1 < s2 then -1 else if s1 > s2 then 1 else if f1 < f2 then -1 else if f1 > f2 then 1 else 0
 
+
+/-- the two halves of `InUtcRange`: `MIN_UTC ≤ ·` and `· ≤ MAX_UTC` in the derived order -/
+def GeMinUtc (s : Int) : Prop := SECS_MIN ≤ s
+def LeMaxUtc (s frac : Int) : Prop := s < SECS_MAX ∨ (s = SECS_MAX ∧ frac < 1000000000)
+instance (s : Int) : Decidable (GeMinUtc s) := by unfold GeMinUtc; exact inferInstance
+instance (s f : Int) : Decidable (LeMaxUtc s f) := by unfold LeMaxUtc; exact inferInstance
+
+/-- "`r` is the zone-aware value whose wall clock is the reading `r0`, at `z`'s offset, kept only if
+its instant passes `ok`": a result has `z`'s offset, is well formed, its wall clock IS `r0`, it
+denotes `r0 − offset` and passes `ok`; there is no result exactly when there is no reading or the
+instant `r0 − offset` fails `ok`.  (`ok = InUtcRange`: the filter of `map_local` / `with_time`;
+`ok = InRangeSecs`: no filter beyond representability, as in month stepping.) -/
+def ActsOnWallWith (ok : Int → Int → Prop) (z : Zoned) (r0 : Option NaiveDT) (r : Option Zoned) : Prop :=
+  (∀ z', r = some z' → ∃ nl, r0 = some nl ∧ z'.off = z.off ∧ ZInv z' ∧
+    Zoned.overflowing_naive_local z' = .ok nl ∧ instSecs z'.utc = instSecs nl - z.off ∧
+    z'.utc.time.frac = nl.time.frac ∧ ok (instSecs z'.utc) z'.utc.time.frac) ∧
+  (r = none ↔ (r0 = none ∨ ∃ nl, r0 = some nl ∧ ¬ ok (instSecs nl - z.off) nl.time.frac))
+
+def ActsOnWall (z : Zoned) (r0 : Option NaiveDT) (r : Option Zoned) : Prop :=
+  ActsOnWallWith InUtcRange z r0 r
+
+/-- the reading with calendar date (y, m, d) — any year — and time of day `t`, if that date exists -/
+def ymdReading? (y : Int) (m d : Nat) (t : Time) : Option NaiveDT :=
+  if validYmd y m d = true then some ⟨dateOfYo y (ordinalOf y m d), t⟩ else none
+/-- the reading on the `o`-th day of year `y`, if that day exists -/
+def yoReading? (y : Int) (o : Nat) (t : Time) : Option NaiveDT :=
+  if 1 ≤ o ∧ o ≤ yearLen y then some ⟨dateOfYo y o, t⟩ else none
+
+/-- the reading `with_year(y')` aims at: the wall clock itself when the year is unchanged (also a
+headroom year), otherwise the same month and day in year `y'` of the supported range -/
+def yearReading? (l : NaiveDT) (y' : Int) : Option NaiveDT :=
+  if y' = l.date.year then some l
+  else if MIN_YEAR ≤ y' ∧ y' ≤ MAX_YEAR then
+    ymdReading? y' (monthOfYo l.date.year l.date.ordinal.toNat) (dayOfYo l.date.year l.date.ordinal.toNat) l.time
+  else none
+
+/-- `z'` is `z` with its wall clock `l` moved by `k` whole days: same offset and time of day, the
+wall-clock date `k` days away, the instant `k·86400` s away -/
+def SteppedDays (z : Zoned) (l : NaiveDT) (z' : Zoned) (k : Int) : Prop :=
+  z'.off = z.off ∧ ZInv z' ∧ instSecs z'.utc = instSecs z.utc + k * 86400 ∧
+  z'.utc.time.frac = z.utc.time.frac ∧
+  ∃ nl, Zoned.overflowing_naive_local z' = .ok nl ∧ nl.time = l.time ∧
+    dayNumOf nl.date = dayNumOf l.date + k
+
 end Chrono.Spec
